@@ -61,7 +61,7 @@ def model_checking(ctx):
 def gen_histories(ctx):
     quick = ctx.tier == "quick"
     # (Timed, operations per history, number of histories)
-    plan = [(False, 12, 40), (False, 25, 50), (False, 25, 50), (False, 40, 20)] if quick else \
+    plan = [(False, 12, 60), (False, 25, 100), (False, 25, 100), (False, 40, 40)] if quick else \
            [(False, 12, 200), (False, 25, 300), (False, 25, 300), (False, 25, 300), (False, 40, 200), (False, 60, 100),
             (True, 14, 24), (True, 14, 24), (True, 20, 24), (True, 20, 24)]
 
@@ -245,10 +245,17 @@ def run_iterator(ctx, env):
             scripts.append({"kind": "iter", "policy": p["policy"], "err": p["err"], "items": items})
     if len(scripts) < 12:
         raise vlib.Inconclusive("only %d iterator schedules generated" % len(scripts))
+    nsched = len(scripts)
+    # a real storage error: a consumer that starts late lets the backend run into its result-stream timeout
+    # (badger waits a minute for its consumer: left out)
+    scripts += [{"kind": "slowq", "backend": b, "total": 15, "waitms": 1400} for b in ("hashmap", "bbolt", "fstree")]
     binp = ctx.go_build(DRIVER)
-    res = vlib.drive(ctx, binp, scripts, chunk=max(1, len(scripts) // 8), timeout=120, env=env)
+    res = vlib.drive(ctx, binp, scripts[:nsched], chunk=max(1, nsched // 8), timeout=120, env=env)
+    res += vlib.drive(ctx, binp, scripts[nsched:], chunk=1, timeout=120, env=env)
     hists, owner = [], []
     for i, r in enumerate(res):
+        if any(e.get("e") == "skip" for e in r["events"]):
+            raise vlib.Inconclusive("the driver could not set up the slow-consumer scenario: %s" % r["events"])
         if r["crashed"]:
             ctx.violation("crash:iterator", "the driver died in an iterator schedule: %s" % r["crashed"][:500], {"script": scripts[i]})
             continue
@@ -260,6 +267,11 @@ def run_iterator(ctx, env):
     ok, rej, unex = vlib.validate(ctx, "IteratorTrace", "IteratorTrace.cfg", hists, chunks=2)
     for hi, ej, ev in rej:
         sc = scripts[owner[hi]]
+        if sc["kind"] == "slowq":
+            ctx.violation("slowquery:%s:%s:err=%s" % (sc["backend"], "short" if ev.get("n", 0) < sc["total"] else "complete", ev.get("v")),
+                          "%s with %d matching records and a consumer that starts %d ms late: %s" % (
+                              sc["backend"], sc["total"], sc["waitms"], json.dumps(ev)), {"script": sc, "observed": hists[hi]})
+            continue
         ctx.violation("iterator:%s:got=%s:want=%s" % (ev.get("e"), ev.get("v", ev.get("n")), hists[hi][0].get("err")),
                       "schedule %s, %d records, storage error %s: the consumer saw the end of the stream and then %s; events: %s" % (
                           "".join(sc["policy"]), sc["items"], sc["err"], json.dumps(ev), json.dumps(hists[hi])),
@@ -337,7 +349,7 @@ def replay(ctx, path):
     sc = doc["replay"]["script"]
     tmpd, env = _tmp_env()
     try:
-        if sc.get("kind") == "iter":
+        if sc.get("kind") in ("iter", "slowq"):
             binp = ctx.go_build(DRIVER)
             res = vlib.drive(ctx, binp, [sc], chunk=1, env=env)
             evs = [dict((k, v) for k, v in e.items() if k != "h") for e in res[0]["events"]]
